@@ -1,0 +1,12 @@
+//go:build !verif
+
+package local
+
+import (
+	"github.com/wrgl/wrgl/pkg/objects"
+	"github.com/wrgl/wrgl/pkg/ref"
+)
+
+func verifObjectsStore(d *RepoDir) (objects.Store, bool) { return nil, false }
+
+func verifRefStore(d *RepoDir) (ref.Store, bool) { return nil, false }
